@@ -5,7 +5,7 @@ import PlzVerif.Generated.C02
 /-!
 C02  Cache restores are indistinguishable from building.
 
-`C02_main`: for every history of cached builds, removals from plz-out (`rm -rf plz-out` included) and cache
+`C02_main_if_injective`: for every history of cached builds, removals from plz-out (`rm -rf plz-out` included) and cache
 evictions, the final build gives each requested target its clean-build output — conditional, like C01, on the
 injectivity of the rule/path pre-images, and with the cache key (`CollapseHash` of the stamp digests) idealised as
 injective on the stamp.  The `collapse_*` theorems are about the regenerated transcription of `CollapseHash`:
@@ -35,7 +35,7 @@ theorem C02_no_wrong_restore (hR : Function.Injective ruleSer) (hP : Function.In
   rw [hce, ha, hi]
 
 /-- The property over all histories with a cache. -/
-theorem C02_main (hR : Function.Injective ruleSer) (hP : Function.Injective pathSer)
+theorem C02_main_if_injective (hR : Function.Injective ruleSer) (hP : Function.Injective pathSer)
     (history : List (HOpC K A F N C S H)) (r : Repo K A F N C) (sel : K → Bool) (hwf : WFList sel [] r.targets) :
     let s := runHistC generatedFacts (mvCoded generatedFacts pathSer) rsCoded exec ruleSer pathSer history (fun _ => none, fun _ => none)
     ∀ k ∈ selKeys sel r.targets, ∃ c st,
